@@ -16,8 +16,12 @@ type SSTableMergeIteratorContext struct {
 
 func (s SSTableMergeIteratorContext) Next() ([]byte, []byte, error) {
 	k, v, err := s.iterator.Next()
-	if errors.Is(err, Done) {
-		return nil, nil, pq.Done
+	if err != nil {
+		if errors.Is(err, Done) {
+			return nil, nil, pq.Done
+		}
+		// any other failure of the underlying iterator must reach the merger
+		return nil, nil, err
 	}
 	return k, v, nil
 }
